@@ -1105,18 +1105,27 @@ func (t *tr) function(fd *ast.FuncDecl, leanName string) (string, *FuncSig) {
 
 func main() {
 	repo := flag.String("repo", "/repo", "repository root")
-	unitsF := flag.String("units", "units.json", "units file")
+	unitsF := flag.String("units", "/verif/tools/extract/units", "units file or directory of *.json (processed in name order)")
 	out := flag.String("out", "/verif/lean", "lean project root")
 	flag.Parse()
 	var units []Unit
-	b, err := os.ReadFile(*unitsF)
-	if err != nil {
-		fmt.Fprintln(os.Stderr, err)
-		os.Exit(2)
+	files := []string{*unitsF}
+	if st, err := os.Stat(*unitsF); err == nil && st.IsDir() {
+		files, _ = filepath.Glob(filepath.Join(*unitsF, "*.json"))
+		sort.Strings(files)
 	}
-	if err := json.Unmarshal(b, &units); err != nil {
-		fmt.Fprintln(os.Stderr, err)
-		os.Exit(2)
+	for _, f := range files {
+		var us []Unit
+		b, err := os.ReadFile(f)
+		if err != nil {
+			fmt.Fprintln(os.Stderr, err)
+			os.Exit(2)
+		}
+		if err := json.Unmarshal(b, &us); err != nil {
+			fmt.Fprintln(os.Stderr, f, err)
+			os.Exit(2)
+		}
+		units = append(units, us...)
 	}
 	failed := false
 	for i := range units {
